@@ -239,6 +239,9 @@ class Runner:
         rec = {"op": op, "impl": hres, "model": mres, "impl_canon": ch, "model_canon": cm,
                "impl_trace": ops, "model_trace": mtrace, "maxalloc": maxalloc,
                "requests": reqs, "replies": replies, "hints": hints, "script": outs, "env": env,
+               "raw_events": events,
+               "leftover": {c.host: len(c.inbuf) for c in net.conns.values() if c.inbuf},
+               "unread": {c.host: len(c.outq) for c in net.conns.values() if c.outq},
                "result_agree": dumps(ch) == dumps(cm),
                "trace_agree": dumps(ops) == dumps(list(mtrace))}
         rec["agree"] = rec["result_agree"] and rec["trace_agree"]
